@@ -46,6 +46,14 @@ CHECKS = {
         "note": "Trusted: TLC; the token grammar of DESIGN.md 6.2 (Go's, with '-' joining a number only in prefix position); the harness maps one two-byte UTF-8 letter to an ASCII placeholder.",
         "technique": "TLA+ reference scanner + TLC validation of recorded lexer.Tokenize results over TLC-enumerated text families",
     },
+    "C12": {
+        "text": "spec/Layout.tla defines token-preserving re-layouts over the reference scanner: TLC segments every base program and decides for every candidate "
+                "(all single-gap separator substitutions, whole-file transforms, seeded random multi-gap re-layouts) whether its token sequence equals the base's "
+                "after dropping comments and collapsing line ends; for each token-preserving candidate the real transpiler must return the base's verdict and "
+                "byte-identical Bash and Batch scripts.",
+        "note": "Trusted: TLC; spec/Lexer.tla as the judge of token preservation (never the lexer under test); single-gap candidates are judged on a four-token window.",
+        "technique": "TLA+ layout relation over the reference scanner (TLC decides token preservation) + differential run of the real transpiler on base and re-layout",
+    },
 }
 
 NOT_APPLICABLE = {}
